@@ -476,7 +476,7 @@ def gen_C11(g, tier):
             # the std adaptors (nth / skip / step_by / last / count / take) over the crate's iterators
             sl = offset_slice(g, c, t, r.randrange(0, 64 // w + 1))
             for kind in ("windows", "chunks", "iter", "reviter"):
-                for ad in ("nth", "skip", "stepby", "last", "count", "take", "nthnext", "hint"):
+                for ad in ("nth", "skip", "stepby", "last", "count", "take", "nthnext", "hint", "lastafter", "countafter", "foldafter", "nthhuge"):
                     wd = r.randrange(1, max(2, min(n, 5) + 1))
                     arg = r.choice([0, 1, 2, 3, n // 2, n])
                     lines.append(f"{c} adapt {kind} {wd} {ad} {arg} {sl}")
@@ -653,6 +653,15 @@ def gen_C04(g, tier):
             v, n = rand_value(g, c, r.randrange(0, 5), 3 * per)
             lines.append(f"{c} raw {v}")
             lines.append(f"{c} show fromraw {n} {v}")
+        for n in (per + 2, 2 * per + 3):
+            t = g.text(c, n)
+            for k in sorted({1, 2, 3, per // 2 + 1, per - 1, per}):
+                if k <= n:
+                    for e in (f"remove r 0 {k}", f"remove rt 0 {k}", f"remove r 1 {k}", f"trunc {n - k}", f"remove rf {n - k} 0"):
+                        v = f"{e} p str {hx(t)}"
+                        m = n - k if not e.startswith("remove r 1") else n - (k - 1)
+                        lines.append(f"{c} raw {v}")
+                        lines.append(f"{c} show fromraw {m} {v}")
         for n in ([per + 1, 2 * per] if tier == "quick" else [0, 1, per - 1, per, per + 1, 2 * per, 2 * per + 3]):
             t = g.text(c, n)
             words = (n * w + 63) // 64
@@ -685,6 +694,7 @@ def gen_C08(g, tier):
                     lines.append(f"{c} windows {K} {sl}")
                     lines.append(f"{c} adapt kmers {K} {r.choice(['nth', 'skip', 'stepby', 'last', 'count', 'nthnext'])} {r.choice([0, 1, 2, 3])} {sl}")
                     lines.append(f"{c} adapt kmers {K} hint {r.choice([0, 0, 1, 2])} {sl}")
+                    lines.append(f"{c} adapt kmers {K} {r.choice(['lastafter', 'countafter', 'foldafter', 'nthhuge'])} {r.choice([0, 1, 2, n])} {sl}")
                     lines.append(f"{c} kmer try {K} usize {sl}")
                     lines.append(f"{c} show kd {K} {sl}")
                     lines.append(f"{c} show ofkmer {K} {sl}")
@@ -874,6 +884,15 @@ def gen_C12(g, tier):
         lines.append(f"{c} show and {sa} {sc}")
         lines.append(f"{c} show or {sc} {sa}")
         lines.append(f"{c} show tocomp p str {hx(ta)}")
+    for _ in range(12 if tier == "quick" else 200):
+        n = r.choice([1, 2, 15, 16, 17, 33])
+        ta, tb = g.text(c, n), g.text(c, n)
+        oa, ob = r.randrange(0, 64), r.randrange(1, 64)
+        lines.append(f"{c} show bitand frombits {oa} p str {hx(ta)} frombits {ob} p str {hx(tb)}")
+        lines.append(f"{c} show bitor frombits {oa} p str {hx(ta)} frombits {ob} p str {hx(tb)}")
+        lines.append(f"{c} show bitor p str {hx(ta)} frombits {ob} p str {hx(tb)}")
+        lines.append(f"{c} show and frombits {oa} p str {hx(ta)} frombits {ob} p str {hx(tb)}")
+        lines.append(f"{c} contains seq frombits {ob} p str {hx(ta)} p str {hx(tb)}")
     for _ in range(10 if tier == "quick" else 200):
         n = r.randrange(0, 70)
         t = g.text("dna", n)
@@ -895,12 +914,14 @@ def gen_C13(g, tier):
             lines.append(f"dna toamino {offset_slice(g, 'dna', t, lead)}")
     for n in (0, 1, 2, 4, 5):
         lines.append(f"dna toamino p str {hx(g.text('dna', n))}")
+    for n in (0, 1, 2, 3, 4, 5, 6):
+        lines.append(f"dna translate {offset_slice(g, 'dna', g.text('dna', n), r.randrange(0, 33))}")
     for _ in range(20 if tier == "quick" else 400):
         n = r.randrange(0, 120)
         sl = offset_slice(g, 'dna', g.text('dna', n), r.randrange(0, 33))
         lines.append(f"dna translate {sl}")
         # the triplet iterators driven through the std adaptors (nth / skip / step_by)
-        for ad in ("nth", "skip", "stepby", "nthnext"):
+        for ad in ("nth", "skip", "stepby", "nthnext", "foldafter", "lastafter", "countafter"):
             lines.append(f"dna adapt windows 3 {ad} {r.choice([0, 1, 2, 3, 5, n // 3])} {sl}")
             lines.append(f"dna adapt chunks 3 {ad} {r.choice([0, 1, 2, 3, 5, n // 3])} {sl}")
     return lines
@@ -949,6 +970,22 @@ def gen_C15(g, tier):
                 qs.append(f"a {a}")
             ent = " ".join(f"{hx(cod)} {a}" for cod, a in entries)
             lines.append(f"{c} codontable {nent} {ent} {len(qs)} {' '.join(qs)}".replace("  ", " "))
+            if entries and r.random() < 0.5:
+                # the same table with keys that are owned sequences with a history (shortened in place, rebuilt from raw words, copied from offset slices)
+                def hist(cod):
+                    k = r.randrange(5)
+                    junk = g.text(c, r.randrange(1, 4))
+                    if k == 0:
+                        return f"trunc {len(cod)} p str {hx(cod + junk)}"
+                    if k == 1:
+                        return f"remove r 0 {len(junk)} p str {hx(junk + cod)}"
+                    if k == 2:
+                        return f"fromraw {len(cod)} p str {hx(cod + junk)}"
+                    if k == 3:
+                        return f"own {offset_slice(g, c, cod, r.randrange(1, per + 1))}"
+                    return f"rev rev p str {hx(cod)}"
+                entv = " ".join(f"{hist(cod)} {a}" for cod, a in entries)
+                lines.append(f"{c} codontablev {nent} {entv} {len(qs)} {' '.join(qs)}".replace("  ", " "))
     return lines
 
 
@@ -975,6 +1012,10 @@ def gen_C19(g, tier):
             core = g.text(c, n)
             if n >= 2 and r.random() < 0.35:
                 core[r.randrange(1, n - 1) if n > 2 else 1] = r.choice(bads) if n > 2 else core[1]
+            if n >= 4 and r.random() < 0.35:
+                k = r.randrange(1, n - 2)
+                run = r.sample(bads, min(len(bads), r.choice([2, 3])))
+                core = core[:k] + run + core[k:]
             pre = [r.choice(bads) for _ in range(r.choice([0, 0, 1, 3, 9]))]
             post = [r.choice(bads) for _ in range(r.choice([0, 0, 1, 4, 11]))]
             lines.append(f"{c} show trim {hx(pre + core + post)}")
@@ -1014,6 +1055,10 @@ def gen_C20(g, tier):
             lines.append(f"{c} show mask revcomp {base}")
             lines.append(f"{c} show unmask mask {base}")
             lines.append(f"{c} show unmask {base}")
+        for n in ([1023, 1025, 2051] if tier == "quick" else [1023, 1024, 1025, 2047, 2051, 4099]):
+            t = g.text(c, n)
+            for op in ("tomask", "tounmask", "mask", "unmask"):
+                lines.append(f"{c} show {op} p str {hx(t)}")
         for _ in range(10 if tier == "quick" else 200):
             v, n = rand_value(g, c, r.randrange(1, 5), 120)
             for op in ("mask", "unmask"):
@@ -1039,6 +1084,11 @@ def gen_C18(g, tier):
         for _ in range(15 if tier == "quick" else 300):
             v, n = rand_value(g, c, r.randrange(0, 7), 4 * per)
             lines.append(f"{c} serde {v}")
+        for _ in range(6 if tier == "quick" else 100):
+            k = r.randrange(1, 4)
+            ws = [r.randrange(1 << 64) for _ in range(k)]
+            m = r.randrange(0, (k * 64) // w + 1)
+            lines.append(f"{c} serdert fromwords {m} {k} {' '.join(map(str, ws))}")
         # owned sequences whose bit vector has a non-zero head (only constructible through From<&BitSlice>), and clones / edits of them
         for off in ([1, 6, 63] if tier == "quick" else range(1, 64)):
             n = r.choice([0, 1, per, per + 1, 2 * per + 1])
